@@ -159,3 +159,29 @@ Definition spec_best (s : side) (m : pmap) (p a : Z) : Prop :=
 (** number of prices of [m] among [l]'s that sort strictly before [p] *)
 Definition rank (s : side) (l : list level) (p : Z) : nat :=
   length (filter (fun x => before s (fst x) p) l).
+
+(* ------------------------------------------------------------------------------------------ *)
+(** [OrderBookL2Manager::run] over an [OrderBookMapMulti]: every stream item is applied to the
+    book of the instrument it names (books are numbered 0..n-1 here); reconnecting notices and
+    items for a non-configured instrument are skipped. *)
+Notation mgr_event := (option nat * event)%type (only parsing).   (* None = reconnecting notice *)
+
+Fixpoint upd_nth (i : nat) (f : book -> book) (l : list book) : list book :=
+  match l, i with
+  | [], _ => []
+  | b :: t, O => f b :: t
+  | b :: t, S j => b :: upd_nth j f t
+  end.
+
+Definition mgr_step (bs : list book) (me : option nat * event) : list book :=
+  match fst me with
+  | None => bs
+  | Some k => upd_nth k (fun b => update b (snd me)) bs
+  end.
+
+(** the events addressed to book [i], in stream order *)
+Definition route (i : nat) (evs : list (option nat * event)) : list event :=
+  flat_map (fun me => match fst me with
+                      | Some k => if Nat.eqb k i then [snd me] else []
+                      | None => []
+                      end) evs.
